@@ -57,8 +57,8 @@ CHECKS = {
    technique="symbolic execution of go/ssa with DFS over tree shapes (bounded model checking), native replay",
    design="5/C04"),
  "C07": dict(
-   text="Bounded exploration with the REAL archive code interpreted end to end: Zip (archive/zip writer + compress/flate) then Unzip on afero's MemMapFs for every tree of up to 2 top-level entries (files with 3 contents, empty directory, directory with a file; names incl. leading/doubled dots): same relative paths, kinds and contents, file mtimes preserved, returned list names exactly the created entries, source untouched, handles balanced; the read-only zip filesystem view (afero zipfs + ReadOnlyFs, interpreted) exposes the same paths/kinds/sizes/contents, refuses 7 kinds of mutating call without changing anything, and after Close fails with the 'failed condition' kind. Known-finding regions: names containing '..', Rm of an empty directory on the view.",
-   note="Tiny contents only; tar view, unicode names and the OS filesystem are outside.",
+   text="Bounded exploration with the REAL archive code interpreted end to end: Zip (archive/zip writer + compress/flate) then Unzip on afero's MemMapFs for every tree of up to 2 top-level entries (files with 3 contents, empty directory, directory with a file; names incl. leading/doubled dots): same relative paths, kinds and contents, file mtimes preserved, returned list names exactly the created entries, source untouched, handles balanced; the read-only zip and tar filesystem views (afero zipfs / tarfs + ReadOnlyFs, interpreted; the tar archive is written with the real archive/tar writer) expose the same paths/kinds/sizes/contents, refuse 7 kinds of mutating call without changing anything, and after Close fail with the 'failed condition' kind. Known-finding regions: names containing '..', Rm of an empty directory on the view, empty directories 'not existing' in the tar view.",
+   note="Tiny contents only; unicode names and the OS filesystem are outside.",
    technique="symbolic execution of go/ssa (real archive/zip, flate, zipfs) with DFS over tree shapes, native replay",
    design="5/C07"),
  "C08": dict(
